@@ -39,8 +39,18 @@ def _local_defs(fnode, name):
     return out
 
 
-def _format_parts(expr):
-    """Split a format expression into (prefix_expr or None, literal_body or None)."""
+def _format_parts(expr, fi=None, depth=0):
+    """Split a format expression into (prefix_expr or None, literal_body or None).
+    A local name holding the format is resolved to its (single) definition first."""
+    if isinstance(expr, ast.Name) and fi is not None and depth < 3 and expr.id not in fi.params:
+        defs = [d for d in _local_defs(fi.node, expr.id) if not isinstance(d, tuple)]
+        if len(defs) == 1:
+            return _format_parts(defs[0], fi, depth + 1)
+        if len(defs) == 2 and all(isinstance(d, (ast.BinOp, ast.Constant)) for d in defs):
+            # e.g. one format per byte-order branch: handled by the caller through the IfExp form
+            return None, expr
+    if isinstance(expr, ast.IfExp) and fi is not None:
+        return None, expr
     if isinstance(expr, ast.Constant) and isinstance(expr.value, str):
         return None, expr.value
     if isinstance(expr, ast.BinOp) and isinstance(expr.op, ast.Add):
@@ -48,7 +58,71 @@ def _format_parts(expr):
             return expr.left, expr.right.value
         # endianness + cls.struct_declaration
         return expr.left, expr.right
+    if isinstance(expr, ast.JoinedStr) and expr.values and isinstance(expr.values[0], ast.FormattedValue):
+        rest = expr.values[1:]
+        if all(isinstance(v, ast.Constant) for v in rest):
+            return expr.values[0].value, "".join(v.value for v in rest)
     return None, None
+
+
+def _be_test(test):
+    """test is  MASK & toc_properties['kTocBigEndian']  (optionally `!= 0` / bool(...)).  -> (mask expr, flag name) or None"""
+    t = test
+    if isinstance(t, ast.Call) and call_name(t) == "bool" and t.args:
+        t = t.args[0]
+    if isinstance(t, ast.Compare) and len(t.ops) == 1 and isinstance(t.ops[0], ast.NotEq) \
+            and isinstance(t.comparators[0], ast.Constant) and t.comparators[0].value == 0:
+        t = t.left
+    if not (isinstance(t, ast.BinOp) and isinstance(t.op, ast.BitAnd)):
+        return None
+    sides = [t.left, t.right]
+    flag = [x for x in sides if isinstance(x, ast.Subscript) and (dotted(x.value) or "").endswith("toc_properties")
+            and isinstance(x.slice, ast.Constant)]
+    if not flag:
+        return None
+    mask = [x for x in sides if x is not flag[0]][0]
+    return mask, flag[0].slice.value
+
+
+def _const(e):
+    return e.value if isinstance(e, ast.Constant) else None
+
+
+def statement_derivation(stmts, name=None):
+    """Recognise  if <big-endian test>: X = '>' else: X = '<'   (X a name) or the same with `return`.
+    -> (mask, flagname, value_if_set, value_if_clear) or None"""
+    default = None
+    for s in stmts:
+        if isinstance(s, ast.Assign) and name is not None and len(s.targets) == 1 and isinstance(s.targets[0], ast.Name) \
+                and s.targets[0].id == name and _const(s.value) in ("<", ">"):
+            default = _const(s.value)
+        if isinstance(s, ast.If):
+            bt = _be_test(s.test)
+            if bt is None:
+                continue
+
+            def val(block):
+                for x in block:
+                    if name is not None and isinstance(x, ast.Assign) and len(x.targets) == 1 and isinstance(x.targets[0], ast.Name) \
+                            and x.targets[0].id == name:
+                        return _const(x.value)
+                    if name is None and isinstance(x, ast.Return):
+                        return _const(x.value)
+                return None
+            a, b = val(s.body), val(s.orelse)
+            if b is None:
+                if name is None:
+                    # if test: return '>'  ;  return '<'
+                    idx = stmts.index(s)
+                    for x in stmts[idx + 1:]:
+                        if isinstance(x, ast.Return):
+                            b = _const(x.value)
+                            break
+                else:
+                    b = default
+            if a is not None and b is not None:
+                return bt[0], bt[1], a, b
+    return None
 
 
 def is_big_endian_derivation(prog, mod, expr):
@@ -56,25 +130,11 @@ def is_big_endian_derivation(prog, mod, expr):
     -> (True, mask_expr, polarity_ok) or (False, None, None)"""
     if not isinstance(expr, ast.IfExp):
         return False, None, None
-    t = expr.test
-    if not (isinstance(t, ast.BinOp) and isinstance(t.op, ast.BitAnd)):
-        # allow (mask & X) != 0
-        if isinstance(t, ast.Compare) and len(t.ops) == 1 and isinstance(t.ops[0], ast.NotEq) \
-                and isinstance(t.left, ast.BinOp) and isinstance(t.left.op, ast.BitAnd) \
-                and isinstance(t.comparators[0], ast.Constant) and t.comparators[0].value == 0:
-            t = t.left
-        else:
-            return False, None, None
-    sides = [t.left, t.right]
-    flag = [s for s in sides if isinstance(s, ast.Subscript) and dotted(s.value) == "toc_properties"
-            and isinstance(s.slice, ast.Constant)]
-    if not flag:
+    bt = _be_test(expr.test)
+    if bt is None:
         return False, None, None
-    mask = [s for s in sides if s is not flag[0]][0]
-    flagname = flag[0].slice.value
-    body = expr.body.value if isinstance(expr.body, ast.Constant) else None
-    orelse = expr.orelse.value if isinstance(expr.orelse, ast.Constant) else None
-    polarity_ok = (flagname == "kTocBigEndian" and body == ">" and orelse == "<")
+    mask, flagname = bt
+    polarity_ok = (flagname == "kTocBigEndian" and _const(expr.body) == ">" and _const(expr.orelse) == "<")
     return True, mask, polarity_ok
 
 
@@ -100,7 +160,7 @@ class EndianFlow:
             if isinstance(n, ast.Call):
                 cn = call_name(n)
                 if cn in UNPACK_NAMES and n.args:
-                    pre, _ = _format_parts(n.args[0])
+                    pre, _ = _format_parts(n.args[0], fi)
                     if isinstance(pre, ast.Name) and pre.id == p:
                         return True
                 if isinstance(n.func, ast.Attribute) and n.func.attr == "newbyteorder" and n.args \
@@ -149,7 +209,7 @@ class EndianFlow:
                         cn = call_name(n)
                         cand = None
                         if cn in UNPACK_NAMES and n.args:
-                            cand, _ = _format_parts(n.args[0])
+                            cand, _ = _format_parts(n.args[0], fi)
                         elif isinstance(n.func, ast.Attribute) and n.func.attr == "newbyteorder" and n.args:
                             cand = n.args[0]
                         if isinstance(cand, ast.Attribute) and dotted(cand.value) == "self" and cand.attr not in self.like_attrs:
@@ -188,21 +248,55 @@ class EndianFlow:
                 out.append((k.arg, k.value))
         return out
 
+    def _blocks(self, fnode):
+        out = [fnode.body]
+        for n in walk_body(fnode):
+            for f in ("body", "orelse", "finalbody"):
+                b = getattr(n, f, None)
+                if isinstance(b, list) and b and isinstance(b[0], ast.stmt):
+                    out.append(b)
+            for h in getattr(n, "handlers", []) or []:
+                out.append(h.body)
+        return out
+
+    def _resolve_helper(self, fi, call):
+        """package function / method of the same class called by `call` (single target), or None"""
+        f = call.func
+        if isinstance(f, ast.Attribute) and dotted(f.value) in ("self", "cls") and fi.cls is not None:
+            found = self.prog.lookup(fi.cls, f.attr)
+            return found[2] if found and found[0] == "method" else None
+        r = self.prog.resolve_expr(fi.module, f) if isinstance(f, (ast.Name, ast.Attribute)) else None
+        if r and r[0] == "func":
+            return r[1]
+        return None
+
+    def _check_pattern(self, fi, mask, flag, a, b, what):
+        if not (flag == "kTocBigEndian" and a == ">" and b == "<"):
+            return False, "byte-order derivation %s has the wrong flag or polarity (flag %s: %r if set else %r)" % (what, flag, a, b)
+        ok = self.own_mask(fi, mask)
+        return (ok, "derived from the segment's own ToC mask" if ok else "ToC mask `%s` is not the segment's own mask" % unparse(mask))
+
     def derived(self, fi, expr, depth=0):
         """-> (True, why) / (False, why)"""
         prog = self.prog
+        if depth > 6:
+            return False, "too deep"
         if isinstance(expr, ast.Name):
             if expr.id in fi.params:
                 if (fi.qual, expr.id) in self.like:
                     return True, "endianness parameter %s" % expr.id
                 return False, "parameter %s is not endianness-valued" % expr.id
+            for blk in self._blocks(fi.node):
+                sd = statement_derivation(blk, expr.id)
+                if sd is not None:
+                    return self._check_pattern(fi, sd[0], sd[1], sd[2], sd[3], "of `%s`" % expr.id)
             defs = _local_defs(fi.node, expr.id)
             if not defs:
                 return False, "name %s has no definition" % expr.id
             for d in defs:
                 if isinstance(d, tuple):
                     return False, "%s is unpacked from %s" % (expr.id, unparse(d[1]))
-                ok, why = self.derived(fi, d, depth + 1) if depth < 4 else (False, "too deep")
+                ok, why = self.derived(fi, d, depth + 1)
                 if not ok:
                     return False, "%s = %s: %s" % (expr.id, unparse(d), why)
             return True, "local %s" % expr.id
@@ -213,6 +307,51 @@ class EndianFlow:
             ok = self.own_mask(fi, mask)
             return (ok, "derived from the segment's own ToC mask" if ok else
                     "ToC mask `%s` is not the segment's own mask" % unparse(mask))
+        if isinstance(expr, ast.Call):
+            g = self._resolve_helper(fi, expr)
+            if g is not None and not g.is_generator:
+                # helper that maps a ToC mask to '>' / '<'
+                pat = None
+                rets = [n for n in walk_body(g.node) if isinstance(n, ast.Return) and n.value is not None]
+                if len(rets) == 1:
+                    d3 = is_big_endian_derivation(prog, g.module, rets[0].value)
+                    if d3[0]:
+                        pat = (d3[1], "kTocBigEndian" if d3[2] else "?", ">" if d3[2] else "?", "<" if d3[2] else "?")
+                    elif isinstance(rets[0].value, ast.Name):
+                        for blk in self._blocks(g.node):
+                            sd = statement_derivation(blk, rets[0].value.id)
+                            if sd is not None:
+                                pat = sd
+                if pat is None:
+                    for blk in self._blocks(g.node):
+                        sd = statement_derivation(blk, None)
+                        if sd is not None:
+                            pat = sd
+                if pat is not None:
+                    mask = pat[0]
+                    bound = dict(self._bind(g, expr, "direct"))
+                    if isinstance(mask, ast.Name) and mask.id in bound:
+                        if not (pat[1] == "kTocBigEndian" and pat[2] == ">" and pat[3] == "<"):
+                            return False, "helper %s derives the byte order with the wrong flag or polarity" % g.qual
+                        ok = self.own_mask(fi, bound[mask.id])
+                        return (ok, "helper %s applied to the segment's own ToC mask" % g.qual if ok else
+                                "helper %s is applied to `%s`, which is not the segment's own ToC mask" % (g.qual, unparse(bound[mask.id])))
+                    if dotted(mask) == "self.toc_mask" and isinstance(expr.func, ast.Attribute) and dotted(expr.func.value) == "self":
+                        good = pat[1] == "kTocBigEndian" and pat[2] == ">" and pat[3] == "<"
+                        return (good, "method %s derives it from self.toc_mask" % g.qual if good else "helper %s has the wrong flag or polarity" % g.qual)
+                # generic helper: every return must be derived inside the helper, with its parameters bound to derived arguments
+                if rets:
+                    bound = dict(self._bind(g, expr, "direct"))
+                    for r_ in rets:
+                        v = r_.value
+                        if isinstance(v, ast.Name) and v.id in bound:
+                            ok, why = self.derived(fi, bound[v.id], depth + 1)
+                        else:
+                            ok, why = self.derived(g, v, depth + 1)
+                        if not ok:
+                            return False, "helper %s: %s" % (g.qual, why)
+                    return True, "through helper %s" % g.qual
+            return False, "`%s` is not derived from the segment's byte order" % unparse(expr)
         if isinstance(expr, ast.Attribute) and dotted(expr.value) == "self" and fi.cls is not None:
             if expr.attr in self.like_attrs:
                 # every store to that attribute anywhere must come from an endianness parameter of an __init__
@@ -224,7 +363,7 @@ class EndianFlow:
                                        and (sfi.qual, value.id) in self.like)
                     if from_ctor_param:
                         continue
-                    ok2, why2 = self.derived(sfi, value, depth + 1) if depth < 4 else (False, "too deep")
+                    ok2, why2 = self.derived(sfi, value, depth + 1)
                     if not (ok2 and dotted(target.value) == "self" and "own ToC mask" in why2):
                         return False, "attribute .%s is also stored in %s from `%s` (a byte order cached on an object can " \
                                       "outlive the segment it was derived from)" % (expr.attr, sfi.qual, unparse(value))
@@ -299,7 +438,7 @@ def bl1(ctx, R):
     n_sites = 0
     for fi, call in _unpack_sites(prog):
         n_sites += 1
-        pre, body = _format_parts(call.args[0])
+        pre, body = _format_parts(call.args[0], fi)
         key = "%s::unpack(%s)" % (fi.qual, unparse(call.args[0]))
         where = fi.where(call)
         size = _read_size_of(fi, call.args[1], prog)
@@ -409,7 +548,7 @@ def bl3(ctx, R):
     # (a) unpack formats
     n = 0
     for fi, call in _unpack_sites(prog):
-        pre, body = _format_parts(call.args[0])
+        pre, body = _format_parts(call.args[0], fi)
         key = "%s::unpack(%s)" % (fi.qual, unparse(call.args[0]))
         where = fi.where(call)
         n += 1
@@ -436,6 +575,13 @@ def bl3(ctx, R):
             likes = [p for p in callee.params if (callee.qual, p) in flow.like]
             if not likes:
                 continue
+            if e.kind in ("byname", "byname-unique"):
+                # a by-name edge is only believed when the receiver is a data type object
+                # (x.data_type, prop_data_type, cls ...); `stream.read(4)` is not a call of TdmsType.read
+                recv = dotted(e.node.func.value) if isinstance(e.node.func, ast.Attribute) else None
+                leaf = (recv or "").split(".")[-1].lower()
+                if not ("type" in leaf or leaf == "cls"):
+                    continue
             if (id(e.node), callee.qual) in seen_calls:
                 continue
             seen_calls.add((id(e.node), callee.qual))
@@ -553,7 +699,7 @@ def bl3(ctx, R):
     for fi in _funcs_in(prog, wmods):
         for nnode in walk_body(fi.node):
             if isinstance(nnode, ast.Call) and call_name(nnode) in PACK_NAMES and nnode.args:
-                pre, body = _format_parts(nnode.args[0])
+                pre, body = _format_parts(nnode.args[0], fi)
                 key = "%s::pack(%s)" % (fi.qual, unparse(nnode.args[0]))
                 lit = body if pre is None and isinstance(body, str) else None
                 pre_lit = pre.value if isinstance(pre, ast.Constant) else None
@@ -670,7 +816,7 @@ def bl4(ctx, R):
         for s in stmts:
             for n in walk_shallow(s):
                 if isinstance(n, ast.Assign) and isinstance(n.value, ast.Call) and call_name(n.value) in UNPACK_NAMES:
-                    pre, body = _format_parts(n.value.args[0])
+                    pre, body = _format_parts(n.value.args[0], fi)
                     names = [e.id for e in n.targets[0].elts] if isinstance(n.targets[0], ast.Tuple) else []
                     want_fmt, want_first = ("Qq", "fraction") if which == "<" else ("qQ", "seconds")
                     good = body == want_fmt and len(names) == 2 and want_first in names[0] and \
